@@ -28,6 +28,7 @@ pub fn dump_src(d: &str) -> Option<String> { let i = d.find("] T")?; let h = d[i
 
 /// C01: assembled image = reference encoding
 pub fn c01(out: &mut Out, ex: &mut Exec, seed: u64, thorough: bool) {
+    NON_ASCII_LITERALS.with(|c| c.set(true));
     let mut rng = Rng::new(seed); let n = if thorough { 60_000 } else { 3_000 }; let mut seen = HashSet::new();
     for i in 0..n {
         let stmts = gen_single(&mut rng, 30, true);
@@ -204,6 +205,7 @@ pub fn first_occurrence(text: &str, name: &str) -> Option<usize> {
 
 /// C24: line ↔ address mapping
 pub fn c24(out: &mut Out, ex: &mut Exec, seed: u64, thorough: bool) {
+    NON_ASCII_LITERALS.with(|c| c.set(true));
     let mut rng = Rng::new(seed); let n = if thorough { 40_000 } else { 2_500 }; let mut seen = HashSet::new();
     for _ in 0..n {
         let stmts = gen_single(&mut rng, 18, true);
@@ -464,6 +466,7 @@ pub fn make_object(out: &mut Out, ex: &mut Exec, rng: &mut Rng, i: u64) -> Optio
 
 /// C17 (binary) / C18 (text): serialize → deserialize gives the same object file
 pub fn c17(out: &mut Out, ex: &mut Exec, seed: u64, thorough: bool, text_fmt: bool) {
+    NON_ASCII_LITERALS.with(|c| c.set(true));
     let mut rng = Rng::new(seed); let n = if thorough { 40_000 } else { 2_500 };
     let (ser, de) = if text_fmt { ("tser", "tde") } else { ("bser", "bde") };
     for i in 0..n {
